@@ -3,6 +3,8 @@ package ratelimiter
 import (
 	"math"
 	"time"
+
+	"github.com/internetarchive/Zeno/internal/pkg/verifhook"
 )
 
 // adjustOnFailure applies real-world adjustments based on the HTTP status code.
@@ -11,6 +13,9 @@ func (tb *tokenBucket) adjustOnFailure(statusCode int) {
 	defer tb.mu.Unlock()
 
 	now := tb.nowFunc()
+	defer func() {
+		verifhook.Obs("rl.adjusted", tb.tokens, tb.capacity, tb.refillRate, tb.idealRate, tb.penaltyUntil, tb.failureCount)
+	}()
 
 	switch {
 	// For rate limiting errors, impose a penalty period.
@@ -40,6 +45,9 @@ func (tb *tokenBucket) onSuccess() {
 	defer tb.mu.Unlock()
 
 	now := tb.nowFunc()
+	defer func() {
+		verifhook.Obs("rl.adjusted", tb.tokens, tb.capacity, tb.refillRate, tb.idealRate, tb.penaltyUntil, tb.failureCount)
+	}()
 
 	// Only adjust if the penalty period is over.
 	if now.After(tb.penaltyUntil) {
